@@ -1,4 +1,5 @@
 import MimicProofs.Results
+import MimicProofs.RowsCode
 import Mimic.ResultsTables
 import MimicProofs.Types
 import MimicProofs.ResultsCode
@@ -152,5 +153,35 @@ theorem column_type_codes :
        ("TIMESTAMP2", 17), ("DATETIME2", 18), ("TIME2", 19), ("TYPED_ARRAY", 20), ("INVALID", 243), ("BOOL", 244), ("JSON", 245),
        ("NEWDECIMAL", 246), ("ENUM", 247), ("SET", 248), ("TINY_BLOB", 249), ("MEDIUM_BLOB", 250), ("LONG_BLOB", 251), ("BLOB", 252),
        ("VAR_STRING", 253), ("STRING", 254), ("GEOMETRY", 255)] := by decide
+
+/-! ### the row builders themselves (`Mimic.Extracted.RowsCode`, regenerated from `/repo` by `harness/pytrans2.py`) -/
+
+/-- **`make_binary_resultrow` of `packets.py` — with `NullBitmap.new`, `flip` and `__bytes__` of `results.py` — translated,
+    builds the model's binary row** for every row and every encoder table: header 0, the NULL bitmap with offset 2 (the
+    bits set by `flip`'s byte-wise OR are exactly the NULL cells), the encoded non-NULL cells in column order.  Every
+    theorem of this file about `binRow` (NULL-bitmap and binary-row round trips) is therefore about the code. -/
+theorem binary_row_is_code (cols : List Mimic.Results.BinEnc) (row : List Mimic.Results.Val) (h : row.length ≤ cols.length) :
+    Mimic.Extracted.RowsCode.make_binary_resultrow (S := Unit) (fun c w => Mimic.Results.binCell c w) (row.map MimicProofs.RowsCode.toOpt) cols
+      = Mimic.Results.binRow cols row :=
+  MimicProofs.RowsCode.binRow_is_code cols row h
+
+/-- the same for the text protocol: `make_text_resultset_row`, translated, is the model's `textRow` -/
+theorem text_row_is_code (cols : List Mimic.Results.TextEnc) (row : List Mimic.Results.Val) :
+    Mimic.Extracted.RowsCode.make_text_resultset_row (fun c w => Mimic.Results.textCell c w) (row.map MimicProofs.RowsCode.toOpt) cols
+      = Mimic.Results.textRow cols row :=
+  MimicProofs.RowsCode.textRow_is_code cols row
+
+/-- **code level, for any encoders**: the bitmap the translated `make_binary_resultrow` writes is the model's bitmap of the
+    row's NULL positions (offset 2), whatever the cells' encoders are -/
+theorem code_binary_row_layout {C W : Type} (enc : C → W → Option Mimic.Py.Bytes) (row : List (Option W)) (cols : List C)
+    (h : row.length ≤ cols.length) :
+    Mimic.Extracted.RowsCode.make_binary_resultrow (S := Unit) enc row cols
+      = (Mimic.Results.optAll (MimicProofs.RowsCode.cellsOf enc (row.zip cols))).map
+          (fun cs => (0 : UInt8) :: (Mimic.Results.bitmap 2 (row.map Option.isNone) ++ cs.flatten)) :=
+  MimicProofs.RowsCode.make_binary_resultrow_eq enc row cols h
+
+/-- non-vacuity at code level: a row (7, NULL, "ab") through the translated builder with toy encoders -/
+example : Mimic.Extracted.RowsCode.make_binary_resultrow (S := Unit) (C := Unit) (W := Mimic.Py.Bytes) (fun _ w => some w)
+    [some [7], none, some [97, 98]] [(), (), ()] = some [0, 8, 7, 97, 98] := by decide +kernel
 
 end MimicProps.C05
